@@ -660,6 +660,20 @@ func c12Taint(c *Ctx) {
 
 // ---- G: constant-offset guards ----
 
+// functions exempt from the constant-offset guard rule (local, trusted input; one reason each)
+var c12GuardExempt = map[string]string{
+	"forkToBackground":        "os.Args of the local process",
+	"resolveHomeDir":          "path from the local configuration, behind a HasPrefix test (disjunction of two prefixes)",
+	"detectDragFilesOnMacOS":  "local user's terminal input; slices follow a regexp match",
+	"nextCygPath":             "local user's terminal input; offsets follow the literal prefix just matched",
+	"nextLinuxPath":           "local user's terminal input; index derived from the scan position",
+	"nextMsysPath":            "local user's terminal input; index derived from the scan position",
+	"nextWinPath":             "local user's terminal input; index derived from the scan position",
+	"unixPathToWinPath":       "called on paths already matched by the cygwin/msys scanners",
+	"detectDragFilesOnWindows": "local user's terminal input",
+	"detectDragFiles":         "local user's terminal input",
+}
+
 func c12Guards(c *Ctx) {
 	// functions that parse received text or scan terminal output
 	fns := []string{"trzszTransfer.recvCheck", "trzszTransfer.recvCheckV2", "decodeRelayBufferString", "trzszDetector.detectTrzsz", "trzszDetector.addRelaySuffix",
@@ -668,8 +682,14 @@ func c12Guards(c *Ctx) {
 		"trzszTransfer.pipelineRecvCurrentAck", "parseTrzszVersion", "TrzszFilter.sendInput", "trzszTransfer.recvLine", "recvStringFromBuffer", "recvStringForWindows", "archiveFileWriter.Write"}
 	n := 0
 	for _, name := range fns {
-		f := c.fn(name)
-		for _, g := range withAnons(f) {
+		c.fn(name) // anchors: the parsers and scanners this rule is about must exist
+	}
+	for _, g := range c.AllFns {
+		name := c.fnName(g)
+		if _, skip := c12GuardExempt[name]; skip {
+			continue
+		}
+		{
 			eachInstr(g, func(in ssa.Instruction) {
 				switch x := in.(type) {
 				case *ssa.Slice:
@@ -690,6 +710,12 @@ func c12Guards(c *Ctx) {
 							okLen := lenAtLeast(fs, x.X, lowC) || (grp && lowC == 1)
 							c.check(okLen, fmt.Sprintf("%s[%d:]", key, lowC), c.ipos(x), "tail slice guarded by a length test", fmt.Sprintf("x[%d:] on received text without a dominating len(x) >= %d", lowC, lowC))
 						} else if _, hiC := constInt(x.High); !hiC {
+							if hb, ok := x.High.(*ssa.BinOp); ok && hb.Op == token.SUB && isLenOf(hb.X, isValue(x.X)) {
+								if kk, ok := constInt(hb.Y); ok {
+									c.check(lenAtLeast(fs, x.X, lowC+kk), fmt.Sprintf("%s[%d:len-%d]", key, lowC, kk), c.ipos(x), "slice ends guarded by a length test", fmt.Sprintf("x[%d:len(x)-%d] without a dominating len(x) >= %d", lowC, kk, lowC+kk))
+									return
+								}
+							}
 							okHi := factCmp(fs, token.GEQ, isValue(x.High), func(v ssa.Value) bool { k, ok := constInt(v); return ok && k >= lowC }) ||
 								factCmp(fs, token.GTR, isValue(x.High), func(v ssa.Value) bool { k, ok := constInt(v); return ok && k >= lowC-1 })
 							c.check(okHi, fmt.Sprintf("%s[%d:v]", key, lowC), c.ipos(x), "upper index proven >= the constant lower index", fmt.Sprintf("x[%d:idx] without a dominating idx >= %d: an early delimiter panics (slice bounds out of range)", lowC, lowC))
@@ -723,6 +749,10 @@ func c12Guards(c *Ctx) {
 						return
 					}
 					n++
+					if k == 0 && isFieldLoad("RelPath")(x.X) {
+						c.ok(fmt.Sprintf("%s/index[0]@RelPath", name), c.ipos(x), "the decoder guarantees a non-empty path list (C09-D/unmarshalSourceFile/non-empty)")
+						return
+					}
 					c.check(lenAtLeast(factsAt(x.Block()), x.X, k+1) || c12SubmatchGuard(x, factsAt(x.Block())), fmt.Sprintf("%s/index[%d]", name, k), c.ipos(x), "constant index guarded by a length test",
 						fmt.Sprintf("x[%d] on received text without a dominating len(x) > %d", k, k))
 				}
@@ -791,6 +821,10 @@ func lenAtLeast(fs []fact, x ssa.Value, k int64) bool {
 			}
 		case token.EQL:
 			if n >= k {
+				return true
+			}
+		case token.NEQ:
+			if n == 0 && k <= 1 {
 				return true
 			}
 		}
